@@ -82,6 +82,9 @@ pub fn c11(d: &Digest, s: usize, out: &mut Vec<Violation>) {
     let pos = d.inst_positions(s);
     let take = first_pool_take(d, s);
     let any_shutdown = sd.first_shutdown_inv;
+    // a stop() that gave up after its timeout took the pool away from a store that was still
+    // working: whether outstanding effects run is then outside the statement (inconclusive)
+    let stop_timed_out = sd.shutdowns.iter().any(|&c| d.timer_in_call(&d.calls[c]));
     let settle_rets: Vec<(usize, usize)> = d.calls.iter().filter(|c| c.op == OpK::Settle).filter_map(|c| c.ret.map(|r| (c.inv, r))).collect();
     let mut store_effs: Vec<EffId> = vec![];
     for (ii, inst) in sd.insts.iter().enumerate() {
@@ -115,9 +118,9 @@ pub fn c11(d: &Digest, s: usize, out: &mut Vec<Violation>) {
                             let quiesced = !crate::oracle2::prog_has_stalls(d.prog) && settle_rets.iter().any(|(si, sr)| *si > inst.last && any_shutdown.map(|f| *sr < f).unwrap_or(true));
                             if quiesced {
                                 v(out, "C11", "followup-lost", format!("store {s}: Effect::Action({b}) produced by {} was never reduced although the store was quiescent and open afterwards", inst.act));
-                            } else if f3 {
-                                vk(out, "C11", "effect-skipped-at-stop", format!("store {s}: Effect::Action({b}) of action {} (accepted before stop()) was never dispatched", inst.act), "F3");
                             }
+                            // otherwise excused: the statement exempts a follow-up whose store
+                            // "has been closed in the meantime", and stop() begins by closing
                         }
                     }
                 }
@@ -134,7 +137,7 @@ pub fn c11(d: &Digest, s: usize, out: &mut Vec<Violation>) {
                             v(out, "C11", "effect-before-producer", format!("store {s}: effect {e} ran before action {} was reduced", inst.act));
                         }
                     }
-                    if runs.is_empty() {
+                    if runs.is_empty() && !stop_timed_out {
                         if f3 {
                             vk(out, "C11", "effect-skipped-at-stop", format!("store {s}: effect {e} of action {} (accepted before stop() was called) never ran", inst.act), "F3");
                         } else {
@@ -153,7 +156,7 @@ pub fn c11(d: &Digest, s: usize, out: &mut Vec<Violation>) {
                     if runs.len() > 1 {
                         v(out, "C11", "effect-ran-twice", format!("store {s}: middleware thunk {} ran {} times", t.id, runs.len()));
                     }
-                    if runs.is_empty() {
+                    if runs.is_empty() && !stop_timed_out {
                         if take.map(|tk| tk < i).unwrap_or(false) {
                             vk(out, "C11", "effect-skipped-at-stop", format!("store {s}: middleware thunk {} never ran", t.id), "F3");
                         } else {
